@@ -8,7 +8,7 @@ HARNESS_FILES = ['pkg/frame/zz_verif_common.go', 'pkg/frame/zz_verif_c05.go', 'p
 ROOTS = ['tlog.verifHarness_C20']
 ALLOW = 'bufio,io,encoding/binary,errors,bytes,time'
 INITS = 'io,bufio,errors,time,github.com/bluenviron/gomavlib/v3/pkg/message'
-OPTIONS = {'clock_stub': False}
+OPTIONS = {'clock_stub': False, 'now_stub': True}
 ARITH = {'bv_as_int_fallback': True, 'aided_simplify': True, 'timeout_ms': 2000, 'cvc5_timeout_ms': 30000}
 SLICE_S = 5
 ANCHOR_FILES = ['/repo/pkg/tlog/reader.go', '/repo/pkg/tlog/writer.go', '/repo/pkg/frame/reader.go', '/repo/pkg/frame/writer.go']
@@ -29,6 +29,7 @@ def tasks(tier):
     for version in (1, 2):
         for shape in range(4):
             ts.append(Task('verifHarness_C20_dialect', [version, shape], {'x25_uf': True}))
+    ts.append(Task('verifHarness_C20_own_times', [], ARITH))
     for n in (0, 2):
         ts.append(Task('verifHarness_C20_unencodable', [n]))
         ts.append(Task('verifHarness_C20_fail_then_ok', [n]))
@@ -38,11 +39,12 @@ def tasks(tier):
 
 
 def required_reach(tier):
-    return ['C20/W', 'C20/T', 'C20/C', 'C20/E', 'C20/E2', 'C20/F', 'C20/S', 'C20/Wd']
+    return ['C20/W', 'C20/T', 'C20/C', 'C20/E', 'C20/E2', 'C20/F', 'C20/S', 'C20/Wd', 'C20/W2']
 
 
 def bounds(tier):
-    return {'dialect_entries': 'writer and reader with the harness dialect: one entry whose frame holds a decoded message (4 shapes, arbitrary field values, v1 and v2): file = timestamp + spec frame, read back as the decoded message',
+    return {'own_times': 'four entries written in a row: a time, an earlier one (half a second back), the zero time.Time, an even earlier one: each 8-byte field is its own entry\'s microsecond count',
+            'dialect_entries': 'writer and reader with the harness dialect: one entry whose frame holds a decoded message (4 shapes, arbitrary field values, v1 and v2): file = timestamp + spec frame, read back as the decoded message',
             'entries': '<= 2 (quick) / <= 3 (thorough), each v1 / v2 / signed v2 (forked), raw payload <= 1 (quick) / 3 (thorough) bytes plus one entry with the largest payload (255 bytes), all contents symbolic',
             'times': 'writer: sec in (-2^42, 2^42), nsec in [0, 1e9); reader lemma: every timestamp field value in (-2^62, 2^62)',
             'cuts': 'every byte offset of the log', 'read_segmentation': '2-entry log delivered in 1-byte reads or with a first transport read of 3 / 9 bytes (quick), eight sizes (thorough)',
